@@ -6,6 +6,8 @@
 #include <cstdint>
 #include <cstdio>
 #include <cstdlib>
+#include <cstring>
+#include <dlfcn.h>
 #include <map>
 #include <mutex>
 #include <omp-tools.h>
@@ -94,9 +96,18 @@ static void tool_fini(ompt_data_t*)
     FILE* fp = fopen(f, "a");
     if (!fp)
         return;
-    for (auto& kv : g_regions)
-        fprintf(fp, "{\"pid\":%ld,\"region\":\"%p\",\"count\":%llu,\"min_team\":%u,\"max_team\":%u}\n", (long)getpid(), kv.first, (unsigned long long)kv.second.count,
-                kv.second.min_team == ~0u ? 0 : kv.second.min_team, kv.second.max_team);
+    for (auto& kv : g_regions) {
+        // address relative to the load base of its module, so that regions can be compared between processes (ASLR)
+        Dl_info di;
+        unsigned long long off = (unsigned long long)(uintptr_t)kv.first;
+        const char* mod        = "?";
+        if (dladdr(kv.first, &di) && di.dli_fbase) {
+            off = (unsigned long long)((const char*)kv.first - (const char*)di.dli_fbase);
+            mod = di.dli_fname ? (strrchr(di.dli_fname, '/') ? strrchr(di.dli_fname, '/') + 1 : di.dli_fname) : "?";
+        }
+        fprintf(fp, "{\"pid\":%ld,\"region\":\"%s+0x%llx\",\"count\":%llu,\"min_team\":%u,\"max_team\":%u}\n", (long)getpid(), mod, off,
+                (unsigned long long)kv.second.count, kv.second.min_team == ~0u ? 0 : kv.second.min_team, kv.second.max_team);
+    }
     fprintf(fp, "{\"pid\":%ld,\"events\":%llu,\"delays\":%llu}\n", (long)getpid(), (unsigned long long)g_events.load(), (unsigned long long)g_delays.load());
     fclose(fp);
 }
